@@ -524,8 +524,9 @@ def write_evidence(pid, tier, seed, ctx, cfg, res, broken, violations, wall):
         "wall_s": round(wall, 1),
         "violations": len(violations) + (1 if (broken and not violations) else 0),
     }
-    os.makedirs(os.path.join(VERIF, "evidence"), exist_ok=True)
-    with open(os.path.join(VERIF, "evidence", pid + ".json"), "w") as f:
+    evdir = os.environ.get("VERIF_EVIDENCE_DIR") or os.path.join(VERIF, "evidence")  # mutation experiments write elsewhere
+    os.makedirs(evdir, exist_ok=True)
+    with open(os.path.join(evdir, pid + ".json"), "w") as f:
         json.dump(ev, f, indent=1)
 
 
